@@ -38,6 +38,8 @@ def plan(tier):
                                     "ARM and Thumb-32 spaces (lazy-word partition, wide cap %d) with the free bits set to "
                                     "{all-0, all-1%s}; conds {EQ,NE} x NZCV {0000,0100} (each cond fails once and passes once)" % (
                                         cap, "" if tier == "quick" else ", 0101.., 1010.., every walking 1"),
+                   "excluded_self_reading": "passing instances that read their own encoding as data (PC-relative loads onto the "
+                                            "instruction itself): the conditional and the AL word differ there by construction",
                    "excluded": "instances whose AL execution is UNDEFINED (IMPLEMENTATION DEFINED when the condition "
                                "fails) or that from_bitarray rejects as UNPREDICTABLE in that context"},
         "exhaustive": True,
@@ -62,6 +64,30 @@ def run_one(cpu, plan, base, word, thumb, olen, nzcv, it=0):
     out = machine.step(cpu)
     post = plan.snapshot()
     return pre, out, post
+
+
+def reads_own_code(cpu, plan, base, word, thumb, olen, nzcv, it):
+    """True iff executing the instruction reads its own encoding as DATA (e.g. LDR r0,[pc,#-8]).  The conditional and the
+    AL form necessarily differ in those bytes, so the differential oracle has no verdict for such an instance.  Decided by
+    watching the memory hub's reads during one more execution: any read overlapping the instruction beyond its fetch."""
+    hub_cls = type(cpu.mem)
+    orig = hub_cls.__getitem__
+    reads = []
+
+    def spy(self, key):
+        try:
+            reads.append((key[0].paddress.physicaladdress, key[1]))
+        except Exception:  # noqa - a differently shaped key: no information, count nothing
+            pass
+        return orig(self, key)
+    hub_cls.__getitem__ = spy
+    try:
+        run_one(cpu, plan, base, word, thumb, olen, nzcv, it)
+    finally:
+        hub_cls.__getitem__ = orig
+    lo, hi = isa.CODE, isa.CODE + olen // 8
+    overlapping = sum(1 for a, n in reads if a < hi and a + n > lo)
+    return overlapping > (2 if (thumb and olen == 32) else 1)
 
 
 def predictable(cpu, word, thumb, olen, it):
@@ -250,6 +276,9 @@ def check_word(res, cpu, plan, base, word, thumb, olen, cname, conds, nzcvs):
             else:
                 res.outcome("pass-cond")
                 if ref is None:
+                    continue
+                if (out, d) != ref and reads_own_code(cpu, plan, base, w2, thumb, olen, nzcv, it):
+                    res.outcome("reads-own-encoding-skipped")
                     continue
                 if (out, d) != ref:
                     res.fail("%s passing-condition-differs-from-unconditional" % cname,
